@@ -248,6 +248,15 @@ def gen(rng, nrng, tier):
                 # the covariance solver sees `lag` samples: its least-squares problem has a unique solution
                 # (what the model computes) only when lag - P >= P; otherwise lstsq returns a minimum-norm solution
                 yield ("arma" if lag >= 2 * P else "arma_laws", {"x": x, "P": P, "Q": Q2, "lag": lag, "dkind": kind})
+    for i in range(8 if tier == "quick" else 60):      # boundary of the domain: lag + 2P - Q == N
+        cplx = bool(i % 2)
+        P = 1 + i % 3
+        N = int(nrng.integers(16, 31))
+        x = _arma_data(nrng, N, cplx, "arma", True)
+        lag = N - P
+        Mx, _ = _myw(x, P, P, lag)
+        if np.linalg.cond(Mx) <= 1e6:
+            yield ("arma", {"x": x, "P": P, "Q": P, "lag": lag, "dkind": "arma"})
     n2 = 60 if tier == "quick" else 900
     for i in range(n2):
         cplx = bool(nrng.integers(0, 2))
